@@ -22,7 +22,7 @@ T_Dropped == IsEvent("dropped") /\ Dropped(Rec[l].pipe)
 T_ClientDone == IsEvent("client_done") /\ ClientDone(Rec[l].k)
 \* connect failures are justified like errors of the stream's request pipe
 T_ConnectErr == IsEvent("connect_err") /\ ErrorJustified(2 * Rec[l].k, Rec[l].t) /\ GaveUp(Rec[l].k)
-T_Other == (IsEvent("server_done") \/ IsEvent("server_head_err") \/ IsEvent("end") \/ IsEvent("fin_dropped") \/ IsEvent("lingering")) /\ UNCHANGED pvars
+T_Other == (IsEvent("server_done") \/ IsEvent("server_head_err") \/ IsEvent("end") \/ IsEvent("fin_dropped") \/ IsEvent("lingering") \/ IsEvent("duplicated")) /\ UNCHANGED pvars
 \* no action for: panic, stall
 TNext == T_Reset \/ T_Open \/ T_WStart \/ T_W \/ T_FinStart \/ T_Fin \/ T_R \/ T_Eos \/ T_RErr \/ T_WErr \/ T_Dropped \/ T_ClientDone
          \/ T_ConnectErr \/ T_Other \/ T_Vanished \/ T_WStartFin \/ T_RunEnd
